@@ -61,6 +61,58 @@ impl W {
         (W { st, net, base }, keys)
     }
 
+    /// A wallet born into a chain whose Sapling and Orchard trees already hold `sap`/`orch` commitments (the
+    /// crates' own random-frontier helper; completed shards are known to the wallet by their roots), so that
+    /// fabricated blocks cross shard boundaries. Returns the chain state at the block before the birthday.
+    pub fn sharded(ironwood: bool, sap: u64, orch: u64) -> (W, Vec<Keys>, zcash_client_backend::data_api::chain::ChainState) {
+        use incrementalmerkletree::frontier::Frontier;
+        use std::num::NonZeroU8;
+        use zcash_client_backend::data_api::{chain::{ChainState, CommitmentTreeRoot}, testing::InitialChainState};
+        let net = network(ironwood);
+        let st = TestBuilder::new()
+            .with_network(net)
+            .with_data_store_factory(TestDbFactory::default())
+            .with_block_cache(BlockCache::new())
+            .with_initial_chain_state(|rng, network| {
+                use zcash_protocol::consensus::{NetworkUpgrade, Parameters};
+                let a0 = network.activation_height(NetworkUpgrade::Sapling).unwrap();
+                let (sroots, sfr) = Frontier::random_with_prior_subtree_roots(rng, sap, NonZeroU8::new(16).unwrap());
+                let (oroots, ofr) = Frontier::random_with_prior_subtree_roots(rng, orch, NonZeroU8::new(16).unwrap());
+                InitialChainState {
+                    chain_state: ChainState::new(a0 + 49, BlockHash([7; 32]), sfr, ofr, Frontier::empty()),
+                    prior_sapling_roots: sroots.into_iter().zip(1u32..).map(|(r, i)| CommitmentTreeRoot::from_parts(a0 + 5 * i, r)).collect(),
+                    prior_orchard_roots: oroots.into_iter().zip(1u32..).map(|(r, i)| CommitmentTreeRoot::from_parts(a0 + 5 * i, r)).collect(),
+                }
+            })
+            .with_account_having_current_birthday()
+            .build();
+        let init = st.latest_cached_block().unwrap().chain_state().clone();
+        let base = u32::from(init.block_height());
+        let ufvk = st.test_account().unwrap().account().ufvk().unwrap().clone();
+        let keys = vec![Keys::from_ufvk(&ufvk)];
+        (W { st, net, base }, keys, init)
+    }
+
+    /// put_{sapling,orchard,ironwood}_subtree_roots for one completed shard of the harness chain
+    pub fn put_root(&mut self, pool: Pool, index: u64, root: [u8; 32], end_height: u32) -> Result<Result<(), String>, String> {
+        use zcash_client_backend::data_api::{WalletCommitmentTrees, chain::CommitmentTreeRoot};
+        let st = &mut self.st;
+        guarded(move || match pool {
+            Pool::Sapling => st
+                .wallet_mut()
+                .put_sapling_subtree_roots(index, &[CommitmentTreeRoot::from_parts(BlockHeight::from(end_height), sapling::Node::from_bytes(root).unwrap())])
+                .map_err(|e| format!("{e:?}")),
+            Pool::Orchard => st
+                .wallet_mut()
+                .put_orchard_subtree_roots(index, &[CommitmentTreeRoot::from_parts(BlockHeight::from(end_height), orchard::tree::MerkleHashOrchard::from_bytes(&root).unwrap())])
+                .map_err(|e| format!("{e:?}")),
+            Pool::Ironwood => st
+                .wallet_mut()
+                .put_ironwood_subtree_roots(index, &[CommitmentTreeRoot::from_parts(BlockHeight::from(end_height), orchard::tree::MerkleHashOrchard::from_bytes(&root).unwrap())])
+                .map_err(|e| format!("{e:?}")),
+        })
+    }
+
     pub fn rel(&self, h: u32) -> i64 {
         h as i64 - self.base as i64
     }
